@@ -337,19 +337,35 @@ func translateFuncCase(fi *funcInfo, chk bool, ts *ast.TypeSwitchStmt, cc *ast.C
 	defByName[lname] = d
 }
 
-func translateGlobal(k string) string {
+func translateGlobal(k string) string { return translateGlobalMode(k, false) }
+
+// translateGlobalMode: the definition of a package-level variable with an initialiser.  twin: the LIMB TWIN of a variable
+// that holds field elements (its initialiser translated a second time with the limb-mode rules, e.g.
+// `mimc7.constants = generateConstantsData()` → `mimc7l_constants := mimc7l_generateConstantsData`); emitted into the
+// twin module of its package, recorded under the key `<key>#limb`.
+func translateGlobalMode(k string, twin bool) string {
 	g := globalInits[k]
 	lean := g.pkgdir + "_" + g.v.Name()
 	if curLimb {
 		lean = g.pkgdir + "l_" + g.v.Name()
 	}
-	globalDefs[k] = lean
-	t := newTr(&funcInfo{key: k, pkgdir: g.pkgdir, pkg: g.pkg}, g.pkg.TypesInfo)
+	gkey := k
+	if twin {
+		gkey = k + twinSuffix
+	}
+	globalDefs[gkey] = lean
+	t := newTr(&funcInfo{key: gkey, pkgdir: g.pkgdir, pkg: g.pkg, twin: twin}, g.pkg.TypesInfo)
 	val := t.expr(g.val)
 	pre := t.flush()
 	text := fmt.Sprintf("/-- package-level `var %s` of %s. -/\ndef %s : %s :=\n%s\n", g.v.Name(), g.pkgdir, lean, leanType(g.v.Type()), indent(pre+val, 1))
+	if twin {
+		text = fmt.Sprintf("/-- limb twin of the package-level `var %s` of %s: an Element is the list of its Montgomery limbs. -/\ndef %s : %s :=\n%s\n", g.v.Name(), g.pkgdir, lean, leanType(g.v.Type()), indent(pre+val, 1))
+	}
 	d := &leanDef{name: lean, text: text, deps: t.deps, pos: g.val.Pos()}
 	gk := modKey(g.pkgdir, curLimb)
+	if twin {
+		gk = g.pkgdir + "#twin"
+	}
 	if curOwn != "" {
 		gk = "own:" + curOwn
 	}
@@ -619,6 +635,9 @@ func main() {
 		if _, ok := globalDefs[k]; ok {
 			die("package-level variable %s has an initialiser, is modified by init() and is read by translated code", k)
 		}
+		if _, ok := globalDefs[k+twinSuffix]; ok {
+			die("package-level variable %s has an initialiser, is modified by init() and is read by a limb twin", k)
+		}
 	}
 	fmt.Printf("gen_go: %d functions translated, %d skipped, %d package-level values, %d limb twins\n", len(translated), len(skipped), len(globalDefs), len(twinKeys))
 }
@@ -716,6 +735,11 @@ func emitTwins(out string) {
 				}
 			}
 			for _, g := range twinGlobalMap {
+				if strings.Contains(d.text, g) {
+					needExtLimb = true
+				}
+			}
+			for _, g := range extLimbPrims {
 				if strings.Contains(d.text, g) {
 					needExtLimb = true
 				}
